@@ -27,7 +27,7 @@ ASSUMPTIONS = [
     "link keys beyond the configured key-table size, fields a version cannot store (v4: frame counters, children below v9) and the EUI64 when it cannot be rewritten are excluded, as the statement says",
     "command payload schemas inside the NCP model are bellows' own tables",
 ]
-PROBES = ["eui64.rewritten_nv3", "eui64.not_rewritable", "eui64.same", "eui64.custom_before", "eui64.unknown", "hashed_tclk.given", "hashed_tclk.generated", "link_keys.some", "link_keys.over_capacity",
+PROBES = ["eui64.rewritten_nv3", "eui64.not_rewritable", "eui64.same", "eui64.custom_before", "eui64.unknown", "hashed_tclk.given", "hashed_tclk.generated", "link_keys.some", "link_keys.over_capacity", "link_keys.gap_in_table",
           "children.some", "tc_address.unknown", "status_event_before_response", "token_api_missing", "mask_without_channel"]
 
 VERSIONS = list(range(4, 15))
@@ -57,10 +57,13 @@ def plan(tier):
         for cap in range(5 if V >= 9 else 4):
             for tmpl in range(4):
                 sweeps.append(("grid", {"V": V, "cap": cap, "tmpl": tmpl, "sched": False}))
+        # a link key in the middle of the table is erased between write and read (what an unsecured rejoin of that device does): the rest must still be read
+        for tmpl, erase in ((2, 1), (3, 0), (3, 7)):
+            sweeps.append(("grid", {"V": V, "cap": 3, "tmpl": tmpl, "sched": False, "erase": erase}))
     return {
         "sweeps": sweeps,
         "exhaustive": "versions 4..14 x capability variant {NV3 restored-EUI64 token; token API but no such token; token API answers invalidCommand; plain; NV3 token already holding a custom EUI64 (v9+)} x 4 settings templates",
-        "random": [("random", {}, 1)],
+        "random": [("random", {}, 3), ("erase", {}, 1)],
         "runs": 250 if tier == "quick" else None,
         "budget_s": 60 if tier == "quick" else 900,
         "batch": 4,
@@ -162,7 +165,7 @@ def run(scenario, params, tape, detail=False):
         elif cap == 2:
             ncp.has_token_data = False
             probe("token_api_missing")
-    ev_delay = (0.0, 0.0, 0.002, 0.05)[tape.draw(4, "evdelay")] if scenario == "random" else (0.0, 0.002)[params.get("tmpl", 0) % 2]
+    ev_delay = (0.0, 0.0, 0.002, 0.05)[tape.draw(4, "evdelay")] if scenario in ("random", "erase") else (0.0, 0.002)[params.get("tmpl", 0) % 2]
     ncp.cb_delay = lambda what: ev_delay
     if ev_delay == 0.0:
         probe("status_event_before_response")
@@ -186,6 +189,15 @@ def run(scenario, params, tape, detail=False):
         st["write"] = ("ok",)
         st["sec_calls"] = list(ncp.sec_calls)
         st["ncp_after_write"] = {"keys": dict(ncp.key_table), "ktsize": ncp._key_table_size(), "nwk_fc": ncp.nwk_fc, "aps_fc": ncp.aps_fc}
+        erase = params.get("erase")
+        if scenario == "erase":
+            erase = tape.draw(8, "erase")
+        nk = min(len(facts["keys"]), st["ncp_after_write"]["ktsize"])
+        if erase is not None and nk >= 2:
+            # a device whose link key sits in the table rejoins unsecured: the application erases that key (cleanup_tc_link_key), leaving a
+            # free slot in front of later entries; everything else must still be read back
+            st["erased"] = facts["keys"][erase % (nk - 1)]
+            await app.cleanup_tc_link_key(eui(st["erased"][1]))
         # one more NCP reset between write and read (configuration is volatile, tokens are not)
         await app._reset()
         try:
@@ -246,7 +258,9 @@ def run(scenario, params, tape, detail=False):
         if st["ncp_after_write"]["ktsize"] < cap_n:
             viol.append(("C14.rt", "config-not-reapplied", f"{tag}: the key table had {cap_n} entries after connect(); when the settings were written the NCP was back at "
                          f"{st['ncp_after_write']['ktsize']} (configuration lost with a reset and not written again)"))
-        want_keys = f["keys"][:cap_n]
+        want_keys = [k for k in f["keys"][:cap_n] if k != st.get("erased")]
+        if st.get("erased"):
+            probe("link_keys.gap_in_table")
         if len(f["keys"]) > cap_n:
             probe("link_keys.over_capacity")
         if f["keys"]:
